@@ -18,8 +18,8 @@ type family struct {
 	name    string
 	files   map[string]string
 	entries []string
-	edges   []famEdge          // expected input-level edges (internal + external)
-	unread  []string           // files that exist but must not appear in inputs
+	edges   []famEdge // expected input-level edges (internal + external)
+	unread  []string  // files that exist but must not appear in inputs
 	base    func() api.BuildOptions
 	cssOnly bool
 }
@@ -28,15 +28,15 @@ func mark(file string, n int) string { return "MARK_" + file + "_" + string(rune
 
 func famFiles() []family {
 	js1 := map[string]string{
-		"src/a.js":       "import {used} from './b.js';\nimport './side.js';\nimport data from './data.json';\nimport ext from 'external-pkg';\nimport * as ext2 from 'external-pkg/sub';\nconst cjs = require('./cjs.cjs');\nconsole.log('MARK_a_1', used, data, ext, ext2, cjs);\nexport const fromA = 'MARK_a_2';\nexport default function main() { return import('./lazy.js') }\nexport {used as reexported} from './b.js';\n",
-		"src/b.js":       "export const used = 'MARK_b_1';\nexport const unusedExport = 'MARK_b_2';\nconsole.log('MARK_b_3');\n",
-		"src/side.js":    "console.log('MARK_side_1');\n",
-		"src/shaken.js":  "export const never = 'MARK_shaken_1';\n",
-		"src/data.json":  "{\"k\": \"MARK_data_1\", \"other\": \"MARK_data_2\"}",
-		"src/cjs.cjs":    "exports.x = 'MARK_cjs_1';\n",
-		"src/lazy.js":    "export const lazy = 'MARK_lazy_1';\nimport {never} from './shaken.js';\n",
-		"src/unread.js":  "console.log('MARK_unread_1')",
-		"package.json":   "{\"name\":\"root\"}",
+		"src/a.js":      "import {used} from './b.js';\nimport './side.js';\nimport data from './data.json';\nimport ext from 'external-pkg';\nimport * as ext2 from 'external-pkg/sub';\nconst cjs = require('./cjs.cjs');\nconsole.log('MARK_a_1', used, data, ext, ext2, cjs);\nexport const fromA = 'MARK_a_2';\nexport default function main() { return import('./lazy.js') }\nexport {used as reexported} from './b.js';\n",
+		"src/b.js":      "export const used = 'MARK_b_1';\nexport const unusedExport = 'MARK_b_2';\nconsole.log('MARK_b_3');\n",
+		"src/side.js":   "console.log('MARK_side_1');\n",
+		"src/shaken.js": "export const never = 'MARK_shaken_1';\n",
+		"src/data.json": "{\"k\": \"MARK_data_1\", \"other\": \"MARK_data_2\"}",
+		"src/cjs.cjs":   "exports.x = 'MARK_cjs_1';\n",
+		"src/lazy.js":   "export const lazy = 'MARK_lazy_1';\nimport {never} from './shaken.js';\n",
+		"src/unread.js": "console.log('MARK_unread_1')",
+		"package.json":  "{\"name\":\"root\"}",
 	}
 	css1 := map[string]string{
 		"src/entry.css": "@import './other.css';\n@import 'http://example.com/ext.css';\na { color: red; background: url(./img.png); content: 'MARK_entry_1' }\nb { background: url(./icon.svg) }\nc { background: url(https://example.com/x.png) }\n",
